@@ -1711,6 +1711,18 @@ class Exec:
         if r is not None:
             return r
         ka, kb = a.ty.kind, b.ty.kind
+        if isinstance(op, ast.Mult) and ka == "list" and kb == "int" and not self.spec:
+            # [x] * n : a new list of max(n, 0) copies of x (only for one-element lists)
+            s0 = z3.simplify(self.seq(a))
+            if z3.is_app_of(s0, z3.Z3_OP_SEQ_UNIT):
+                x = s0.arg(0)
+                n = S.un_int(b.t)
+                r = self.fresh("rep", S.SEQV)
+                j = z3.Int("j!rep")
+                self.assume(z3.Length(r) == z3.If(n > 0, n, 0))
+                self.assume(z3.ForAll([j], z3.Implies(z3.And(0 <= j, j < z3.Length(r)), r[j] == x)))
+                self.assume(z3.ForAll([j], z3.Implies(z3.And(0 <= j, j < z3.Length(r)), S.ELT(r, j) == x), patterns=[S.ELT(r, j)]))
+                return self.new_list(r, a.ty)
         if ka == "int" and kb == "int":
             x, y = S.un_int(a.t), S.un_int(b.t)
             if isinstance(op, ast.Add):
